@@ -101,6 +101,10 @@ def run(ctx):
     # the production regime of the call site: C(n,3) far above the budget (sub-sampled triples must still be distinct)
     for n, budget in [(45, 5000), (60, 5000), (30, 800)] + ([] if ctx.quick else [(80, 5000), (120, 3000), (200, 5000)]):
         traces.append(_observe_dbal(n, budget, rnd.randrange(1 << 30)))
+    # the scoring entry point: ONE scorer object used for several score() calls (different numbers of posterior samples, several
+    # chunks of plates per call) - every chunk's triples must satisfy the clauses, whatever the object did before
+    for _ in range(4 if ctx.quick else 40):
+        traces += _observe_scorer_session(rnd)
     _validate(ctx, tlc, traces)
     ctx.assumptions += ["TLC integers are 32 bit: the register machine is explored for k=3 up to n=1500; rank / successor relations with plain "
                         "integers up to n=2343 (C(n,3) < 2^31) and with two-limb arithmetic up to n=6000 (C(n,3) < 3.6e10)"]
@@ -135,6 +139,52 @@ def _observe_dbal(n, budget, seed):
     ok_args = all(p["n"] == n and p["k"] == 3 for p in picks)
     return {"kind": "dbal", "n": n, "budget": budget, "args_ok": ok_args, "raised": st != "ok",
             "picks": [{"ind": p["ind"], "t": p["t"]} for p in picks]}
+
+
+def _observe_scorer_session(rnd):
+    from harness.drivers.c05 import ArrTheta, Dense
+    from batchie.core import ThetaHolder
+    from batchie.data import Screen
+    budget = rnd.choice([3, 10, 20, 35, 84, 5000])
+    scorer = G.GaussianDBALScorer(max_chunk=rnd.choice([1, 2, 50]), max_triples=budget)
+    sizes = [rnd.randint(1, 3) for _ in range(rnd.randint(1, 4))]
+    rows_pl = [p for p, e in enumerate(sizes) for _ in range(e)]
+    N = len(rows_pl)
+    scr = Screen(treatment_names=np.array([["a", "b"]] * N, dtype=str), treatment_doses=np.ones((N, 2)), sample_names=np.array(["s"] * N, dtype=str),
+                 plate_names=np.array(["p%02d" % p for p in rows_pl], dtype=str))
+    plates = {p: scr.get_plate(p) for p in range(len(sizes))}
+    out = []
+    real_u, real_f = G.get_combination_at_sorted_index, G.dbal_fast_gauss_scoring_vectorized
+    cur = []
+
+    def rec(ind, nn, kk):
+        t = real_u(ind, nn, kk)
+        cur.append({"ind": int(ind), "t": [int(x) for x in t], "n": int(nn), "k": int(kk)})
+        return t
+
+    def fast(*a, **kw):
+        del cur[:]
+        dm = kw.get("distance_matrix", a[2] if len(a) > 2 else None)
+        n = int(dm.shape[0])
+        try:
+            return real_f(*a, **kw)
+        finally:
+            out.append({"kind": "dbal", "n": n, "budget": int(kw.get("max_combos", 5000)), "raised": False,
+                        "args_ok": all(p["n"] == n and p["k"] == 3 for p in cur), "picks": [{"ind": p["ind"], "t": p["t"]} for p in cur]})
+    G.get_combination_at_sorted_index, G.dbal_fast_gauss_scoring_vectorized = rec, fast
+    try:
+        rng = np.random.default_rng(rnd.randrange(1 << 30))
+        for n in [rnd.randint(3, 9) for _ in range(rnd.randint(2, 4))]:
+            h = ThetaHolder(n_thetas=n)
+            for _ in range(n):
+                h.add_theta(ArrTheta(rng.normal(size=N), np.exp(rng.normal(size=N))))
+            d = np.abs(rng.normal(size=(n, n)))
+            st, v = outcome(scorer.score, plates, Dense(d + d.T), h, rng, False)
+            if st != "ok":
+                out.append({"kind": "dbal", "n": n, "budget": budget, "raised": True, "args_ok": True, "picks": [], "err": str(v)[:200]})
+    finally:
+        G.get_combination_at_sorted_index, G.dbal_fast_gauss_scoring_vectorized = real_u, real_f
+    return out
 
 
 def _validate(ctx, tlc, traces):
